@@ -58,5 +58,17 @@ def shadowing_param(rng):
     return ("from pa import f\ndef label(f):\n    return f\ndef call():\n    return f()\nfrom pb import f\nprint(call())\n", [], [])
 
 
+def lambda_then_late_import(rng):
+    inner = rng.choice(["    key = lambda v: v\n", "    def key(v):\n        return v\n"])
+    return ("import os\ndef compute(vs):\n" + inner + "    return [late9.scale(key(v), os.sep) for v in vs]\nimport late9\n",
+            ["import late9"], [])
+
+
+def bad_doctest(rng):
+    return ('def fdoc():\n    """\n    >>> print "py2"\n    >>> g(<data>)\n    >>> import os\n    >>> os.sep\n    """\n    return 1\n',
+            [], [])
+
+
 SCENARIOS = [two_dotted_uses, import_after_use_same_line, midline_unused, future_and_caps, late_rebinding,
-             dotted_prefix_use, del_then_use, header_doc, doctest_import, shadowing_param]
+             dotted_prefix_use, del_then_use, header_doc, doctest_import, shadowing_param,
+             lambda_then_late_import, bad_doctest]
